@@ -181,4 +181,73 @@ theorem decode_lt (d : Dec) (ft : Nat) (hr : RngOk d) (hv : d.val < 4294967296) 
   · rw [sub32_of_le (by omega) (by omega)]; omega
   · rw [sub32_of_le (by omega) (by omega)]; omega
 
+/-- The multi-byte branch of `ec_dec_uint`, with its intermediate results named. -/
+def uintHi (d : Dec) (ft1 ftb : Nat) : Nat × Dec :=
+  let ft' := ft1 / 2 ^ ftb + 1
+  let s := (decode d ft').1
+  let r := decBits (decUpdate (decode d ft').2 s (s + 1) ft') ftb
+  if u32 (s <<< ftb) ||| r.1 ≤ ft1 then (u32 (s <<< ftb) ||| r.1, r.2) else (ft1, { r.2 with error := 1 })
+
+theorem decUint_hi (d : Dec) (ft : Nat) (hb : ilog (ft - 1) > 8) :
+    decUint d ft = uintHi d (ft - 1) (ilog (ft - 1) - 8) := by
+  unfold decUint uintHi
+  simp only [if_pos hb]
+
+theorem decUint_lo (d : Dec) (ft : Nat) (hb : ¬ ilog (ft - 1) > 8) :
+    decUint d ft = ((decode d (ft - 1 + 1)).1,
+      decUpdate (decode d (ft - 1 + 1)).2 (decode d (ft - 1 + 1)).1 ((decode d (ft - 1 + 1)).1 + 1) (ft - 1 + 1)) := by
+  unfold decUint
+  simp only [if_neg hb]
+
+theorem decUpdate_rn2 (c : Dec) (fl fh ft : Nat) (hr : RngOk c) (hl : (Op.encode fl fh ft).Legal)
+    (hext : c.ext = c.rng / ft) :
+    (decUpdate c fl fh ft).rng = (primRN (.encode fl fh ft) c.rng c.nbitsTotal).1 ∧
+    (decUpdate c fl fh ft).nbitsTotal = (primRN (.encode fl fh ft) c.rng c.nbitsTotal).2 := by
+  have := decUpdate_rn c fl fh ft hr hl hext
+  exact ⟨congrArg Prod.fst this, congrArg Prod.snd this⟩
+
+theorem uintHi_core (t ft1 v : Nat) (c3 : Dec) (h3 : c3.error = 0)
+    (hm : (if t ≤ ft1 then (t, c3) else (ft1, { c3 with error := 1 })).1 = v)
+    (he : (if t ≤ ft1 then (t, c3) else (ft1, { c3 with error := 1 })).2.error = 0) :
+    t = v ∧ (if t ≤ ft1 then (t, c3) else (ft1, { c3 with error := 1 })).2 = c3 := by
+  by_cases ht : t ≤ ft1
+  · rw [if_pos ht] at hm ⊢; exact ⟨hm, rfl⟩
+  · rw [if_neg ht] at he; exact absurd he Int.one_ne_zero
+
+theorem uintHi_rn (d : Dec) (v ft1 ftb : Nat) (hr : RngOk d) (hv : d.val < 4294967296) (he0 : d.error = 0)
+    (hftb : ftb ≤ 24) (hft' : ft1 / 2 ^ ftb + 1 ≤ 256)
+    (hleg : (Op.encode (v / 2 ^ ftb) (v / 2 ^ ftb + 1) (ft1 / 2 ^ ftb + 1)).Legal)
+    (hm : (uintHi d ft1 ftb).1 = v) (he : (uintHi d ft1 ftb).2.error = 0) :
+    (uintHi d ft1 ftb).2.rng =
+      (primRN (.encode (v / 2 ^ ftb) (v / 2 ^ ftb + 1) (ft1 / 2 ^ ftb + 1)) d.rng d.nbitsTotal).1 ∧
+    (uintHi d ft1 ftb).2.nbitsTotal =
+      (primRN (.encode (v / 2 ^ ftb) (v / 2 ^ ftb + 1) (ft1 / 2 ^ ftb + 1)) d.rng d.nbitsTotal).2 + ftb := by
+  generalize hft : ft1 / 2 ^ ftb + 1 = ft' at *
+  generalize hs : (decode d ft').1 = s
+  generalize hc2 : decUpdate { d with ext := d.rng / ft' } s (s + 1) ft' = c2
+  generalize hrb : decBits c2 ftb = rb
+  have heq : uintHi d ft1 ftb =
+      if u32 (s <<< ftb) ||| rb.1 ≤ ft1 then (u32 (s <<< ftb) ||| rb.1, rb.2) else (ft1, { rb.2 with error := 1 }) := by
+    rw [← hrb, ← hc2, ← hs, ← hft]; rfl
+  rw [heq] at hm he ⊢
+  have hs256 : s < ft' := by rw [← hs]; exact decode_lt d ft' hr hv hleg.2.2.1 hft'
+  obtain ⟨b1, b2, b3, b4⟩ := decBits_rn c2 ftb
+  rw [hrb] at b1 b2 b3 b4
+  have hupd_err : c2.error = 0 := by
+    rw [← hc2]; simp only [decUpdate, decNormalize_error]; exact he0
+  obtain ⟨k1, k2⟩ := uintHi_core _ ft1 v rb.2 (by rw [b3]; exact hupd_err) hm he
+  rw [k2, b1, b2]
+  have hsh : s <<< ftb < 4294967296 := by
+    rw [Nat.shiftLeft_eq]
+    have h1 : 2 ^ ftb ≤ 2 ^ 24 := Nat.pow_le_pow_right (by decide) hftb
+    have h2 : s * 2 ^ ftb ≤ 255 * 2 ^ 24 := Nat.mul_le_mul (by omega) h1
+    omega
+  rw [u32_of_lt hsh, Nat.or_comm, or_shift _ _ _ b4] at k1
+  have hsv : s = v / 2 ^ ftb := by
+    rw [← k1, Nat.add_mul_div_right _ _ (Nat.pow_pos (by decide)), Nat.div_eq_of_lt b4, Nat.zero_add]
+  obtain ⟨t1, t2⟩ := decUpdate_rn2 { d with ext := d.rng / ft' } s (s + 1) ft' ⟨hr.1, hr.2⟩ (by rw [hsv]; exact hleg) rfl
+  rw [hc2] at t1 t2
+  rw [← hsv]
+  exact ⟨t1, by rw [t2]⟩
+
 end Opus.RangeCoder
